@@ -60,7 +60,7 @@ fn di_strategy(with_hist: bool) -> BoxedStrategy<DiCase> {
 
 fn simple_labels() -> Vec<Lab> {
     // characters that need no XML escaping
-    pool().into_iter().filter(|l| !l.text().contains(['<', '>', '&', '"', '\''])).collect()
+    pool().into_iter().filter(|l| l.parse_roundtrips() && !l.text().contains(['<', '>', '&', '"', '\''])).collect()
 }
 
 /// Concrete calls that build the graph of a case.
